@@ -146,3 +146,22 @@ func Enumerate(sp Space, shard int, f func(text string, symbols int) bool) {
 	}
 	rec(lead, sp.ShardDepth)
 }
+
+// Keywords: every statement keyword of RFC 7950, spellings next to the one keyword whose argument is
+// read in a mode of its own (pattern), and extension keywords that a library might be tempted to
+// treat like it.
+var Keywords = strings.Fields(`action anydata anyxml argument augment base belongs-to bit case choice config contact container default description deviate deviation enum error-app-tag error-message extension feature fraction-digits grouping identity if-feature import include input key leaf leaf-list length list mandatory max-elements min-elements modifier module must namespace notification ordered-by organization output path pattern position prefix presence range reference refine require-instance revision revision-date rpc status submodule type typedef unique units uses value when yang-version yin-element
+ Pattern PATTERN patterns pattern- -pattern p:pattern pattern:p posix-pattern p:posix-pattern oc-ext:posix-pattern p:regex p:regexp p:length p:range p:path p:must p:when p:xpath p:default p:ext k`)
+
+// KeywordTexts: one statement per keyword and argument form - arguments with escapes that only a
+// pattern may keep, in double quotes, single quotes, unquoted and concatenated; and the same as a
+// substatement.
+func KeywordTexts() []string {
+	var out []string
+	for _, k := range Keywords {
+		for _, arg := range []string{`"\d"`, `"a\.b"`, `"\q" + "x"`, `'x' + "\d"`, `'\d'`, `\d`, `"\\d"`, `"a\tb\n\"c\\"`, `"\`, `"\d`} {
+			out = append(out, k+" "+arg+";", "m { "+k+" "+arg+"; }", k+" "+arg+" { "+k+" "+arg+"; }")
+		}
+	}
+	return out
+}
